@@ -945,60 +945,7 @@ func (c *Ctx) ruleWrapKeepsHandle(rr *RuleRep) {
 			rr.Lost("wrapErrorWithRetry", "no cause parameter")
 			return
 		}
-		cause := ssa.Value(wr.Params[0])
-		identity := func(v ssa.Value) bool {
-			bin, ok := v.(*ssa.BinOp)
-			if !ok || bin.Op != token.EQL {
-				return false
-			}
-			other := bin.Y
-			if bin.Y == cause {
-				other = bin.X
-			} else if bin.X != cause {
-				return false
-			}
-			return isNilConst(other) || c.globalLoadName(other) == "io.EOF"
-		}
-		// every path from the entry to `at` takes the true edge of an identity test of the cause (however the outcome of the
-		// test travels to the branch: directly, through `||`, or through a flag an extracted predicate returned)
-		// cond being true means an identity test held: the test itself, or a short-circuit value all of whose ways of being
-		// true are such tests (`a || b`: the constant-true edge comes from a's true edge, the other edge is b)
-		var identityTrue func(v ssa.Value, depth int) bool
-		identityTrue = func(v ssa.Value, depth int) bool {
-			if depth > 4 {
-				return false
-			}
-			if identity(v) {
-				return true
-			}
-			phi, ok := v.(*ssa.Phi)
-			if !ok || len(phi.Edges) == 0 {
-				return false
-			}
-			for i, e := range phi.Edges {
-				if kb, isK := constBool(e); isK {
-					if !kb {
-						continue
-					}
-					pb := blockIf(phi.Block().Preds[i])
-					if pb == nil || !identityTrue(pb.Cond, depth+1) || phi.Block().Preds[i].Succs[0] != phi.Block() {
-						return false
-					}
-					continue
-				}
-				if !identityTrue(e, depth+1) {
-					return false
-				}
-			}
-			return true
-		}
-		guarded := func(at ssa.Instruction) bool {
-			_, reach := CanReach(wr, nil, func(in ssa.Instruction) bool { return in == at }, PathQ{BlockEdge: func(b *ssa.BasicBlock, k int) bool {
-				iff := blockIf(b)
-				return iff != nil && k == 0 && identityTrue(iff.Cond, 0)
-			}})
-			return !reach
-		}
+		guarded := c.identityGuard(wr, ssa.Value(wr.Params[0]))
 		bad, has := false, false
 		for _, ret := range returnsOf(wr) {
 			v := c.Resolve(ret.Results[0])
@@ -1029,6 +976,9 @@ func (c *Ctx) ruleWrapKeepsHandle(rr *RuleRep) {
 		}
 		if al, ok := v.(*ssa.Alloc); ok && typeName(al.Type()) == "Error" {
 			continue
+		}
+		if len(impl.Params) > 0 && v == ssa.Value(impl.Params[0]) && c.identityGuard(impl, v)(ret) {
+			continue // `if passesUnwrapped(err) { return err }`: the cause itself, behind the identity test
 		}
 		bad = true
 		rr.Bad("wrapErrorImpl/pass-through", ret.Pos(), "wrapErrorImpl passes %s through unwrapped: wrapErrorWithRetry then returns it without a retry handle, so a request interrupted by this cause is never retransmitted", describeVal(v))
@@ -1098,4 +1048,63 @@ func (c *Ctx) ruleTaskContext(rr *RuleRep) {
 			rr.Bad(FuncName(g)+"/task-ctx", in.Pos(), "tasks run under %s instead of context.Background(): when that context is cancelled (e.g. the caller's Connect context after connecting), failed requests take the user-cancelled branch and are dropped instead of being queued for retry", describeVal(c.Resolve(k.Call.Args[0])))
 		}
 	})
+}
+
+// identityGuard: for function f with cause parameter `cause`, the predicate "every path from the entry to `at` takes the
+// true edge of an identity test of the cause against nil or io.EOF" (however the outcome of the test travels to the branch).
+func (c *Ctx) identityGuard(f *ssa.Function, cause ssa.Value) func(at ssa.Instruction) bool {
+	identity := func(v ssa.Value) bool {
+		bin, ok := v.(*ssa.BinOp)
+		if !ok || bin.Op != token.EQL {
+			return false
+		}
+		other := bin.Y
+		if bin.Y == cause {
+			other = bin.X
+		} else if bin.X != cause {
+			return false
+		}
+		return isNilConst(other) || c.globalLoadName(other) == "io.EOF"
+	}
+	// every path from the entry to `at` takes the true edge of an identity test of the cause (however the outcome of the
+	// test travels to the branch: directly, through `||`, or through a flag an extracted predicate returned)
+	// cond being true means an identity test held: the test itself, or a short-circuit value all of whose ways of being
+	// true are such tests (`a || b`: the constant-true edge comes from a's true edge, the other edge is b)
+	var identityTrue func(v ssa.Value, depth int) bool
+	identityTrue = func(v ssa.Value, depth int) bool {
+		if depth > 4 {
+			return false
+		}
+		if identity(v) {
+			return true
+		}
+		phi, ok := v.(*ssa.Phi)
+		if !ok || len(phi.Edges) == 0 {
+			return false
+		}
+		for i, e := range phi.Edges {
+			if kb, isK := constBool(e); isK {
+				if !kb {
+					continue
+				}
+				pb := blockIf(phi.Block().Preds[i])
+				if pb == nil || !identityTrue(pb.Cond, depth+1) || phi.Block().Preds[i].Succs[0] != phi.Block() {
+					return false
+				}
+				continue
+			}
+			if !identityTrue(e, depth+1) {
+				return false
+			}
+		}
+		return true
+	}
+	guarded := func(at ssa.Instruction) bool {
+		_, reach := CanReach(f, nil, func(in ssa.Instruction) bool { return in == at }, PathQ{BlockEdge: func(b *ssa.BasicBlock, k int) bool {
+			iff := blockIf(b)
+			return iff != nil && k == 0 && identityTrue(iff.Cond, 0)
+		}})
+		return !reach
+	}
+	return guarded
 }
